@@ -45,7 +45,7 @@ macro_rules! probes_struct {
 probes_struct! {
     scalars: {
         runs, steps, deliveries, polls, resets, advances, forks, snapshots, restores, reset_storm_resets, soak_loops, soak_steps, enc_cc14, enc_pn, bad_argument_ctor,
-        ingest_rejected, ingest_mismatch, factory_rebuild_mismatch, accessor_mismatch, telemetry_mismatch, garbled_parses, infinite_jumps, clock_reads,
+        ingest_rejected, ingest_mismatch, factory_rebuild_mismatch, direct_clock_reads, accessor_mismatch, telemetry_mismatch, garbled_parses, infinite_jumps, clock_reads,
         reports_cc14, reports_pn, reports_polling_feed, reports_polling_poll,
         rt_c07_checked, rt_c07_skipped, rt_c10_checked, rt_c10_running_checked, rt_c10_skipped,
         rt_c12_checked, rt_c12_abandoned, rt_c12_unfinished,
@@ -65,8 +65,8 @@ probes_struct! {
         reset_cells: 6,
         witness: 16,
         api_calls: 40,
-        faults_fired: 26,
-        faults_in_flight: 26,
+        faults_fired: 27,
+        faults_in_flight: 27,
         repr_used: 4,
         channels_used: 16,
         timeout_class_runs: 3,
